@@ -278,6 +278,37 @@ def enum : Nat → Cx → String → List String → Kind → Json → Bool → 
 def enumDoc (cx : Cx) (src : String) (j : Json) : List CNode :=
   (docChildren j).flatMap (fun c => enum 64 cx src c.toks c.kind c.j true)
 
+/-! ### The resolver skeleton the model assumes (compared with the generated table `Gen.resolverSkeleton`) -/
+
+def goName : Kind → String
+  | .header => "Header" | .parameter => "Parameter" | .requestBody => "RequestBody" | .response => "Response"
+  | .schema => "Schema" | .securityScheme => "SecurityScheme" | .example => "Example" | .callback => "Callback"
+  | .link => "Link" | .pathItem => "PathItem"
+
+/-- does `documentPath, err = loader.loadSingleElementFromURI(…)` move the document path (or is it `_, err =`) -/
+def movesDocumentPath : Kind → Bool
+  | .securityScheme | .example | .link => false
+  | _ => true
+
+/-- the resolvers a routine calls on child positions, in source order -/
+def walkCalls : Kind → List Kind
+  | .header => [.schema]
+  | .parameter => [.schema, .schema]
+  | .requestBody => [.example, .schema]
+  | .response => [.header, .example, .schema, .link]
+  | .schema => [.schema, .schema, .schema, .schema, .schema, .schema, .schema]
+  | .callback => [.pathItem]
+  | .pathItem => [.parameter, .parameter, .requestBody, .response, .callback]
+  | _ => []
+
+/-- flags: value-present check, shouldVisitRef, visitRef, single-element branch, single-element load moves
+    documentPath, resolveComponent, recursive call on the local copy, deferred unvisitRef -/
+def skeletonFlags (k : Kind) : List Bool :=
+  [true, true, true, true, movesDocumentPath k, true, k != .pathItem, true]
+
+def kindsByGoName : List Kind :=
+  [.callback, .example, .header, .link, .parameter, .pathItem, .requestBody, .response, .schema, .securityScheme]
+
 /-! ### One step of the loader -/
 
 inductive StepR
@@ -315,7 +346,7 @@ def stepGo (fs : Files) (rootData : Option Json) (cx : Cx) (text : String) (k : 
     | some j =>
       if !isObj j then .fail
       else
-        let moves := k != .securityScheme && k != .example && k != .link
+        let moves := movesDocumentPath k
         .node ⟨cx.doc, if moves then some u else cx.path⟩ ⟨cx.doc, some u⟩ (storeKey u) [] false none
   | some fr =>
     let internal := p = ""
